@@ -25,6 +25,7 @@ class Translator:
         self.W = width
         self.F = z3.Float64()
         self.rm = z3.RNE()
+        self.approximations = []     # constructs encoded approximately: unsat verdicts are then NOT claims (only replayed sat models count)
 
     def ival(self, n):
         return V("int", z3.BitVecVal(n, self.W))
@@ -228,6 +229,13 @@ class Translator:
                 return v
             mode = {"ceil": z3.RTP(), "floor": z3.RTN(), "round": z3.RNE(), "int": z3.RTZ(), "trunc": z3.RTZ()}[name]
             return V("int", z3.fpToSBV(mode, v.term, z3.BitVecSort(self.W)))
+        if name == "round" and len(args) == 2 and args[0].kind == "float" and args[1].kind == "int" and z3.is_bv_value(args[1].term):
+            nd = args[1].term.as_signed_long()
+            if 0 <= nd <= 6:
+                # round-half-even to nd decimals as roundToIntegral(x * 10^nd) / 10^nd; CPython rounds the exact decimal expansion, which can differ on rare halfway cases
+                self.approximations.append(f"round(x, {nd}) as RNE(x*10^{nd})/10^{nd}")
+                sc = z3.FPVal(float(10 ** nd), self.F)
+                return V("float", z3.fpDiv(self.rm, z3.fpRoundToIntegral(z3.RNE(), z3.fpMul(self.rm, args[0].term, sc)), sc))
         if name in ("max", "min") and len(args) == 2 and args[0].kind == args[1].kind == "int":
             a, b = args[0].term, args[1].term
             return V("int", z3.If(a >= b, a, b) if name == "max" else z3.If(a <= b, a, b))
